@@ -121,4 +121,65 @@ Section MatchProofs.
     apply rbind_ok in H as (x & e5 & e6 & Hx & H & _). apply ret_ok in H as [<- _].
     now apply no_match_warn_shape in Hx as ->.
   Qed.
+
+  (** ** the converse direction: the FIRST accessible same-named candidate decides *)
+  Definition cand_ok (lhs R r : node) : bool :=
+    is_field_accessible d R (obj_name r) && compare_field_name o (obj_name lhs) (obj_name r).
+
+  Lemma name_pass_first s2s lhs R : forall cands,
+    name_pass d o mpos s2s lhs R cands =
+      match find (cand_ok lhs R) cands with
+      | None => ret PNotFound
+      | Some r => name_pass d o mpos s2s lhs R [r]
+      end.
+  Proof.
+    induction cands as [|r cands IH]; [reflexivity|].
+    cbn [find]. unfold cand_ok at 1.
+    destruct (is_field_accessible d R (obj_name r)) eqn:Ea; cbn [andb].
+    - destruct (compare_field_name o (obj_name lhs) (obj_name r)) eqn:Ec.
+      + cbn [name_pass]. rewrite Ea, Ec. reflexivity.
+      + cbn [name_pass]. rewrite Ea, Ec. cbn [negb orb]. exact IH.
+    - cbn [name_pass]. rewrite Ea. cbn [negb orb]. exact IH.
+  Qed.
+
+  (** no accessible same-named candidate: the pass finds nothing *)
+  Lemma name_pass_none s2s lhs R cands :
+    (forall r, In r cands -> cand_ok lhs R r = false) ->
+    name_pass d o mpos s2s lhs R cands = ret PNotFound.
+  Proof.
+    intros H. rewrite name_pass_first.
+    destruct (find (cand_ok lhs R) cands) as [r|] eqn:Efi; [|reflexivity].
+    apply find_some in Efi as [Hin Hok]. rewrite (H r Hin) in Hok. discriminate.
+  Qed.
+
+  (** a first candidate that is assignable as it stands (and not a slice pair) is assigned as it stands *)
+  Lemma name_pass_assignable s2s lhs R cands r :
+    find (cand_ok lhs R) cands = Some r ->
+    (is_slice (expr_type lhs) && is_slice (expr_type r)) = false ->
+    assignable E (expr_type r) (expr_type lhs) = true ->
+    name_pass d o mpos s2s lhs R cands = ret (PDone (Some (ASimple lhs (RNode r) (returns_error r))) false).
+  Proof.
+    intros Hf Hs Ha. rewrite name_pass_first, Hf. cbn [name_pass].
+    apply find_some in Hf as [_ Hok]. unfold cand_ok in Hok. apply andb_true_iff in Hok as [H1 H2].
+    rewrite H1, H2, Hs. cbn [negb orb]. unfold cast_node. fold E. rewrite Ha. reflexivity.
+  Qed.
+
+  (** nothing accessible of that name among getters (when consulted) and fields (when consulted):
+      the field is reported `no match` *)
+  Theorem name_match_no_candidate s2s lhs R a ev :
+    (o_getter o = true -> forall r, In r (getter_nodes d R) -> cand_ok lhs R r = false) ->
+    (str_eqb (o_rule o) rule_name = true -> forall r, In r (field_nodes d R) -> cand_ok lhs R r = false) ->
+    name_match_with d o mpos s2s lhs R = (Ok a, ev) -> a = Some (ANoMatch lhs).
+  Proof.
+    intros Hg Hf H. unfold name_match_with in H.
+    assert (Eg : (if o_getter o then name_pass d o mpos s2s lhs R (getter_nodes d R) else ret PNotFound) = ret PNotFound).
+    { destruct (o_getter o); [apply name_pass_none; auto|reflexivity]. }
+    assert (Ef : (if str_eqb (o_rule o) rule_name then name_pass d o mpos s2s lhs R (field_nodes d R) else ret PNotFound) = ret PNotFound).
+    { destruct (str_eqb (o_rule o) rule_name); [apply name_pass_none; auto|reflexivity]. }
+    rewrite Eg in H. apply rbind_ok in H as (g & e1 & e2 & Hg' & H & _). apply ret_ok in Hg' as [<- _]. cbn [fst snd] in H.
+    rewrite Ef in H. apply rbind_ok in H as (f & e3 & e4 & Hf' & H & _). apply ret_ok in Hf' as [<- _]. cbn [fst snd] in H.
+    rewrite andb_false_r in H.
+    apply rbind_ok in H as (x & e5 & e6 & Hx & H & _). apply ret_ok in H as [<- _].
+    now apply no_match_warn_shape in Hx as ->.
+  Qed.
 End MatchProofs.
